@@ -1,7 +1,7 @@
 (* C15 — which features of one feature group are computed together, stated without the algorithm.  Definitions only. *)
 From Coq Require Import List Bool Arith.
 Import ListNotations.
-Require Import MV.Model.Options MV.Model.Identity MV.Model.Grouping.
+Require Import MV.Model.Options MV.Model.Identity MV.Model.Grouping MV.Spec.OptionsSpec.
 
 Definition is_typed (x : item) : bool := match it_ty x with Some _ => true | None => false end.
 
@@ -39,11 +39,29 @@ Definition kf_ambiguous (its : list item) : bool :=
       is_typed t1 && is_typed t2 && Nat.eqb (it_kb t1) (it_kb u) && Nat.eqb (it_kb t2) (it_kb u)
       && negb (oty_eqb (it_ty t1) (it_ty t2))) its) its) its.
 
-(* (group options, compute frameworks) agree, as Python == sees it *)
-Definition opts_agree (a b : gfeat) : bool :=
-  py_eq (VDict (g_group a)) (VDict (g_group b)) && py_eq (cfw_val (g_cfw a)) (cfw_val (g_cfw b)).
+(* ---------- grouping by EQUALITY of (group options, compute frameworks): what the property asks for ----------
+   (opts_agree = Python == of the two, Model/Grouping.v).  The class of a feature is the index of the first feature of the
+   request with equal (options, frameworks); the two passes over declared types are those of the code (group_items). *)
+Definition eq_class (fs : list gfeat) (x : gfeat) : nat := first_idx (fun y => opts_agree y x) fs.
+Definition item_of_eq (fs : list gfeat) (x : gfeat) : item :=
+  {| it_id := g_id x; it_kb := eq_class fs x; it_ty := g_ty x |}.
+Definition group_features_eq (fs : list gfeat) : list (list nat) :=
+  map (map it_id) (group_items (map (item_of_eq fs) fs)).
 
-(* known-defect domain: two features whose group options are different but have the same canonical form
-   (list vs tuple, dict vs tuple of pairs): the hash-based grouping cannot tell them apart *)
+(* known-defect domain 1 (C15-grouping-conflates-list-tuple): two features whose group options are different but have the
+   same canonical form (list vs tuple, dict vs tuple of pairs) *)
+Definition kf_canon_conflation (fs : list gfeat) : bool :=
+  existsb (fun a => existsb (fun b => canon_eqb a b && negb (opts_agree a b)) fs) fs.
+
+(* known-defect domain 2 (C15-grouping-hash-collision): two features whose group options have different canonical forms
+   with the same hash integer (-1 / -2, "" / 0, z / z mod 2^61-1, an Enum member / its name, and anything built from them) *)
+Definition kf_hash_collision (fs : list gfeat) : bool :=
+  existsb (fun a => existsb (fun b => base_eqb a b && negb (canon_eqb a b)) fs) fs.
+
+(* both: unequal (options, frameworks) with the same hash integer -- the hash-based grouping cannot tell them apart *)
 Definition kf_hash_conflation (fs : list gfeat) : bool :=
   existsb (fun a => existsb (fun b => base_eqb a b && negb (opts_agree a b)) fs) fs.
+
+(* every feature of the request has hashable, well-formed group options (otherwise hash(options) raises) *)
+Definition hashable_request (fs : list gfeat) : Prop :=
+  forall x, In x fs -> wfv (VDict (g_group x)) /\ nofs (VDict (g_group x)) /\ hash_key (VDict (g_group x)) <> None.
